@@ -368,18 +368,29 @@ func init() {
 	delete(n, "internal/stringslite.Index")
 
 	// ----- sync (cooperative, single running coroutine)
-	noop := func(in *Interp, fr *frame, a []Value) Value { return nil }
-	for _, m := range []string{"(*sync.Mutex).Lock", "(*sync.Mutex).Unlock", "(*sync.RWMutex).Lock", "(*sync.RWMutex).Unlock", "(*sync.RWMutex).RLock", "(*sync.RWMutex).RUnlock"} {
-		n[m] = noop
+	// the cooperative scheduler never preempts inside a critical section, so locking only matters
+	// to the happens-before analysis (race.go): unlock releases, lock acquires
+	lock := func(in *Interp, fr *frame, a []Value) Value { in.raceAcquire(cellKey("mutex", a[0])); return nil }
+	unlock := func(in *Interp, fr *frame, a []Value) Value { in.raceRelease(cellKey("mutex", a[0])); return nil }
+	for _, m := range []string{"(*sync.Mutex).Lock", "(*sync.RWMutex).Lock", "(*sync.RWMutex).RLock"} {
+		n[m] = lock
 	}
-	n["(*sync.Mutex).TryLock"] = func(in *Interp, fr *frame, a []Value) Value { return in.st.True }
+	for _, m := range []string{"(*sync.Mutex).Unlock", "(*sync.RWMutex).Unlock", "(*sync.RWMutex).RUnlock"} {
+		n[m] = unlock
+	}
+	n["(*sync.Mutex).TryLock"] = func(in *Interp, fr *frame, a []Value) Value {
+		in.raceAcquire(cellKey("mutex", a[0]))
+		return in.st.True
+	}
 	n["(*sync.Once).Do"] = func(in *Interp, fr *frame, a []Value) Value {
 		p := a[0].(PtrV)
 		key := fmt.Sprintf("once:%d", p.C.ID)
 		if in.ext[key] == nil {
 			in.ext[key] = true
 			in.callValue(fr, a[1], nil, nil)
+			in.raceRelease(cellKey("once", a[0]))
 		}
+		in.raceAcquire(cellKey("once", a[0]))
 		return nil
 	}
 	n["(*sync.WaitGroup).Add"] = func(in *Interp, fr *frame, a []Value) Value {
@@ -395,15 +406,18 @@ func init() {
 		key := fmt.Sprintf("wg:%d", p.C.ID)
 		cnt, _ := in.ext[key].(int64)
 		in.ext[key] = cnt - 1
+		in.raceRelease(cellKey("wg", a[0]))
 		return nil
 	}
 	n["(*sync.WaitGroup).Wait"] = func(in *Interp, fr *frame, a []Value) Value {
 		p := a[0].(PtrV)
 		key := fmt.Sprintf("wg:%d", p.C.ID)
 		in.yieldUntil(func() bool { c, _ := in.ext[key].(int64); return c <= 0 })
+		in.raceAcquire(cellKey("wg", a[0]))
 		return nil
 	}
 	n["(*sync.Pool).Get"] = func(in *Interp, fr *frame, a []Value) Value {
+		in.raceAcquire(cellKey("pool", a[0]))
 		p := a[0].(PtrV)
 		su := p.C.T.Underlying().(*types.Struct)
 		for i := 0; i < su.NumFields(); i++ {
@@ -416,7 +430,7 @@ func init() {
 		}
 		return IfaceV{}
 	}
-	n["(*sync.Pool).Put"] = noop
+	n["(*sync.Pool).Put"] = func(in *Interp, fr *frame, a []Value) Value { in.raceRelease(cellKey("pool", a[0])); return nil }
 
 	// ----- sync/atomic
 	for _, ty := range []struct {
@@ -424,19 +438,33 @@ func init() {
 		t types.Type
 	}{{"Int32", types.Typ[types.Int32]}, {"Int64", types.Typ[types.Int64]}, {"Uint32", types.Typ[types.Uint32]}, {"Uint64", types.Typ[types.Uint64]}, {"Uintptr", types.Typ[types.Uintptr]}} {
 		t := ty.t
-		n["sync/atomic.Load"+ty.n] = func(in *Interp, fr *frame, a []Value) Value { return in.load(a[0].(PtrV), t) }
-		n["sync/atomic.Store"+ty.n] = func(in *Interp, fr *frame, a []Value) Value { in.store(a[0].(PtrV), t, a[1]); return nil }
+		// atomics synchronise: a load acquires what earlier stores and read-modify-writes released
+		n["sync/atomic.Load"+ty.n] = func(in *Interp, fr *frame, a []Value) Value {
+			in.raceAcquire(cellKey("atomic", a[0]))
+			return in.load(a[0].(PtrV), t)
+		}
+		n["sync/atomic.Store"+ty.n] = func(in *Interp, fr *frame, a []Value) Value {
+			in.raceRelease(cellKey("atomic", a[0]))
+			in.store(a[0].(PtrV), t, a[1])
+			return nil
+		}
 		n["sync/atomic.Add"+ty.n] = func(in *Interp, fr *frame, a []Value) Value {
+			in.raceAcquire(cellKey("atomic", a[0]))
+			in.raceRelease(cellKey("atomic", a[0]))
 			v := in.st.Add(in.load(a[0].(PtrV), t).(*Term), a[1].(*Term))
 			in.store(a[0].(PtrV), t, v)
 			return v
 		}
 		n["sync/atomic.Swap"+ty.n] = func(in *Interp, fr *frame, a []Value) Value {
+			in.raceAcquire(cellKey("atomic", a[0]))
+			in.raceRelease(cellKey("atomic", a[0]))
 			old := in.load(a[0].(PtrV), t)
 			in.store(a[0].(PtrV), t, a[1])
 			return old
 		}
 		n["sync/atomic.CompareAndSwap"+ty.n] = func(in *Interp, fr *frame, a []Value) Value {
+			in.raceAcquire(cellKey("atomic", a[0]))
+			in.raceRelease(cellKey("atomic", a[0]))
 			old := in.load(a[0].(PtrV), t).(*Term)
 			if in.branch(in.st.Eq(old, a[1].(*Term))) {
 				in.store(a[0].(PtrV), t, a[2])
